@@ -333,6 +333,9 @@ class SAMIReader(BaseReader):
                 css_property, value = style
             else:
                 continue
+            # "font-weight: bold; font-style: italic": blanks around a
+            # property name are not part of it
+            css_property = css_property.strip()
             if css_property == 'text-align':
                 self._save_first_alignment(value.strip())
             else:
